@@ -703,6 +703,7 @@ func (vc *VC) callInvoke(fr *Frame, n *Node, call *ssa.CallCommon, res ssa.Value
 		}
 	}
 	vc.bindResult(fr, n, res, vc.havocResults(fr, n, call.Signature(), call.Method.Name()))
+	vc.ghostAt(fr, n, "after", akey, aord, res)
 	return n
 }
 
